@@ -201,6 +201,11 @@ func strip(v ssa.Value) ssa.Value {
 			// load of a single-assignment local cell
 			if x.Op == token.MUL {
 				if a, ok := x.X.(*ssa.Alloc); ok {
+					// flow-sensitive within the block: `*cell = v; ...; load cell`
+					if ls := lastStoreBefore(x, a); ls != nil {
+						v = ls.Val
+						continue
+					}
 					st := storesTo(a)
 					if len(st) == 1 {
 						v = st[0].Val
@@ -233,6 +238,11 @@ func storesTo(a *ssa.Alloc) []*ssa.Store {
 						}
 						if al, ok := addr.(*ssa.Alloc); ok {
 							fi.stores[al] = append(fi.stores[al], x)
+						} else if ra := rootAlloc(addr, bind); ra != nil {
+							if fi.partStores == nil {
+								fi.partStores = map[ssa.Value][]*ssa.Store{}
+							}
+							fi.partStores[ra] = append(fi.partStores[ra], x)
 						}
 					case *ssa.MakeClosure:
 						cf := x.Fn.(*ssa.Function)
@@ -252,6 +262,31 @@ func storesTo(a *ssa.Alloc) []*ssa.Store {
 		scan(a.Parent(), map[ssa.Value]ssa.Value{})
 	}
 	return fi.stores[a]
+}
+
+// rootAlloc follows FieldAddr/IndexAddr chains to a local cell.
+func rootAlloc(addr ssa.Value, bind map[ssa.Value]ssa.Value) *ssa.Alloc {
+	for i := 0; i < 10; i++ {
+		if r, ok := bind[addr]; ok {
+			addr = r
+		}
+		switch x := addr.(type) {
+		case *ssa.Alloc:
+			return x
+		case *ssa.FieldAddr:
+			addr = x.X
+		case *ssa.IndexAddr:
+			addr = x.X
+		default:
+			return nil
+		}
+	}
+	return nil
+}
+
+func partStoresTo(a *ssa.Alloc) []*ssa.Store {
+	storesTo(a)
+	return info(a.Parent()).partStores[a]
 }
 
 func AnyV(ssa.Value) bool { return true }
@@ -572,7 +607,19 @@ func depSearch(root ssa.Value, vm VM, control bool) bool {
 						push(st.Val)
 						addCD(st.Block())
 					}
+					for _, st := range partStoresTo(a) {
+						push(st.Val)
+						addCD(st.Block())
+					}
 					continue
+				}
+				if a := rootAlloc(x.X, nil); a != nil {
+					for _, st := range storesTo(a) {
+						push(st.Val)
+					}
+					for _, st := range partStoresTo(a) {
+						push(st.Val)
+					}
 				}
 			}
 		}
@@ -1093,3 +1140,26 @@ func FlagSet(rules ...FlagRule) VM {
 		return nset > 0 && bad == 0
 	}
 }
+
+// SliceOf matches x[low:high]; a nil matcher requires the bound to be absent.
+func SliceOf(x, low, high VM) VM {
+	return func(v ssa.Value) bool {
+		s, ok := strip(v).(*ssa.Slice)
+		if !ok || !x(s.X) {
+			return false
+		}
+		if (low == nil) != (s.Low == nil) || (high == nil) != (s.High == nil) {
+			return false
+		}
+		if low != nil && !low(s.Low) {
+			return false
+		}
+		if high != nil && !high(s.High) {
+			return false
+		}
+		return true
+	}
+}
+
+// FieldCall matches a call through a func-typed struct field.
+func FieldCall(f *types.Var) CM { return ValueCall(FieldLoad(f)) }
